@@ -74,6 +74,7 @@ typedef struct cthr {
     double deadline;
     uint64_t ticket, wgen;
     uint64_t h;
+    uint64_t h2; /* address-free trace hash (replay determinism test) */
     /* pending op (trace) */
     int pkind;
     const void *paddr;
@@ -130,8 +131,8 @@ static void finish(int status, const char *key, const char *fmt, va_list ap)
             vsnprintf(xr->msg, sizeof(xr->msg), fmt, ap);
         uint64_t th = 0;
         for (int i = 0; i < nthr; i++) {
-            th = abtmc_mix(th, T[i].h);
-            xr->thash[i] = T[i].h;
+            th = abtmc_mix(th, T[i].h2);
+            xr->thash[i] = T[i].h2;
             xr->tops[i] = (uint64_t)T[i].loglen;
         }
         xr->tracehash = th;
@@ -683,6 +684,10 @@ static void log_access(cthr *t, const void *addr, unsigned size,
 static void hash_access(cthr *t, const void *addr, int kind, int wrote,
                         uint64_t val)
 {
+    /* h2: operation kinds and small (non-pointer) values only, so that two
+     * replays of one schedule agree even if the heap layout differs */
+    t->h2 = abtmc_mix(t->h2, (uint64_t)kind * 4 + (wrote ? 1 : 0));
+    t->h2 = abtmc_mix(t->h2, val < (1u << 20) ? val : 0xdead);
     locent *le = loc_get(addr);
     if (wrote) {
         uint64_t h = abtmc_mix(t->h, (uint64_t)kind * 2 + 1);
@@ -764,6 +769,7 @@ static cthr *libc_point(int tag, const void *obj)
     t->wk = W_NONE;
     schedule();
     t->h = abtmc_mix(abtmc_mix(t->h, 0x5000 + tag), (uint64_t)(uintptr_t)obj);
+    t->h2 = abtmc_mix(t->h2, 0x5000 + tag);
     /* order libc-level operations on the same object in the HB hash */
     locent *le = loc_get(obj ? obj : (const void *)&nthr);
     t->h = abtmc_mix(abtmc_mix(t->h, le->whash), le->raccum);
@@ -919,6 +925,7 @@ void abtmc_spin_hint(int site, const void *ctx)
     schedule();
     t->wk = W_NONE;
     t->h = abtmc_mix(t->h, 0x6000 + site);
+    t->h2 = abtmc_mix(t->h2, 0x6000 + site);
 }
 
 /* ------------------------------------------------------- thread control */
